@@ -11,31 +11,44 @@
 (***************************************************************************)
 EXTENDS TraceBase, F64
 
-CONSTANT JudgeEvaluator    \* FALSE: only the direct-evaluation leg is judged (C02); the evaluator legs belong to C03/C16
+CONSTANT Mode    \* which property's clauses are judged (a check alarms only on what ITS property states):
+                 \*   "direct"     C02: Piecewise::evaluate picks the piece Select names
+                 \*   "evaluator"  C03: the evaluator's answer is, bit for bit, direct evaluation's (same piece, argument
+                 \*                passed verbatim), whatever the history; no panic
+                 \*   "nan"        C16: no panic anywhere; in a history that contains a NaN query the later non-NaN
+                 \*                answers still equal direct evaluation's
 
-VARIABLES ends, off, last, sel, arg
+VARIABLES ends, off, last, sel, arg,
+          nanseen      \* a NaN was queried since the last `new`
 
 E == INSTANCE Evaluator WITH NaNGuard <- TRUE
 
-TraceInit == TallyInit /\ l = 1 /\ ends = << PosZero >> /\ off = 0 /\ last = PosZero /\ sel = 0 /\ arg = PosZero
+TraceInit == TallyInit /\ l = 1 /\ ends = << PosZero >> /\ off = 0 /\ last = PosZero /\ sel = 0 /\ arg = PosZero /\ nanseen = FALSE
 
 TraceNew ==
     /\ IsEvent("new")
     /\ E!New(Rec[l].ends)
+    /\ nanseen' = FALSE
 
 TraceQuery ==
     /\ IsEvent("query")
     /\ LET e == Rec[l] IN
        /\ E!Query(e.x)
        \* contract: whatever the history, the answer is the piece Select names, given x verbatim
+       /\ nanseen' = (nanseen \/ IsNaN(e.x))
        /\ Judge(~e.panic, "panic")
-       /\ Judge(~JudgeEvaluator \/ IsNaN(e.x) \/ e.panic \/
-                (e.seg = E!P!SelectScan(ends, e.x) /\ e.arg = e.x /\ e.valok), "evaluator-vs-Select")
-       /\ Judge(e.panic \/ e.dseg = E!P!SelectScan(ends, e.x), "direct-vs-Select")
+       /\ Judge(Mode # "evaluator" \/ IsNaN(e.x) \/ e.panic \/
+                (e.seg = e.dseg /\ e.arg = e.x /\ e.valok), "evaluator-vs-direct")
+       /\ Judge(Mode # "nan" \/ ~nanseen \/ IsNaN(e.x) \/ e.panic \/
+                (e.seg = e.dseg /\ e.arg = e.x /\ e.valok), "evaluator-vs-direct after a NaN query")
+       /\ Judge(Mode # "direct" \/ e.panic \/ e.dseg = E!P!SelectScan(ends, e.x), "direct-vs-Select")
+       \* (model conformance, no verdict: the evaluator agrees with direct evaluation but not with Select -- then C02's
+       \*  check reports the direct leg)
+       /\ Drift(IsNaN(e.x) \/ e.panic \/ e.seg # e.dseg \/ e.seg = E!P!SelectScan(ends, e.x), "evaluator-vs-Select")
        \* shape: the hidden cursor moves as the model says
        /\ Drift(e.off = off' /\ e.tail = Len(ends) - 1 - off' /\ (e.last = last' \/ (IsNaN(e.last) /\ IsNaN(last')))
                 /\ (e.panic \/ e.seg = sel'), "cursor")
 
 TraceNext == TraceNew \/ TraceQuery
-TraceSpec == TraceInit /\ [][TraceNext]_<< l, ends, off, last, sel, arg >>
+TraceSpec == TraceInit /\ [][TraceNext]_<< l, ends, off, last, sel, arg, nanseen >>
 =============================================================================
